@@ -581,6 +581,31 @@ func c01Huge(c *Ctx) {
 		}
 		return g
 	}())
+	// search trees more than 256 levels deep (every level individualises one vertex): complete, edgeless and
+	// perfect-matching graphs beyond 256 vertices / edges; few relabellings each (stated bound)
+	deep := map[string]bool{}
+	addDeep := func(name string, g *EG) { add(name, g); deep[name] = true }
+	deepN, deepM := []int{257}, []int{256}
+	if c.Thorough() {
+		deepN, deepM = []int{255, 256, 257, 258, 300}, []int{255, 256, 257, 300}
+	}
+	for _, n := range deepN {
+		kn := &EG{N: n}
+		for i := 0; i < n; i++ {
+			for j := 0; j < i; j++ {
+				egAdd(kn, j, i)
+			}
+		}
+		addDeep(fmt.Sprintf("K%d", n), kn)
+		addDeep(fmt.Sprintf("edgeless%d", n), &EG{N: n})
+	}
+	for _, m := range deepM {
+		pm := &EG{N: 2 * m}
+		for i := 0; i < m; i++ {
+			egAdd(pm, 2*i, 2*i+1)
+		}
+		addDeep(fmt.Sprintf("perfect-matching-%d-edges", m), pm)
+	}
 	for _, lg := range gs {
 		g := lg.g
 		n := g.N
@@ -607,6 +632,13 @@ func c01Huge(c *Ctx) {
 		k := 8
 		if c.Thorough() {
 			k = 80
+		}
+		if deep[lg.name] {
+			perms = relabelBattery(n, false, 0)
+			k = 1
+			if !c.Thorough() {
+				perms, k = perms[:1], 1
+			}
 		}
 		for s := 1; s <= k; s++ {
 			perms = append(perms, lcgPerm(n, uint64(s)*2741+uint64(n)))
